@@ -12,16 +12,33 @@ Direct oracle (the property's own statement, evaluated on ground truth kept by `
 the newest readable snapshot matching the snapshot regex that contains the path, for paths matching the file regex}; printed
 rows ≠ ground truth (names, notes, times, file counts, true sizes, digests, mtime; order newest first); a printed name used as
 an exact filter does not return exactly that row; delete fed printed names fails or removes other snapshots.
+
+Time-zone worlds (harness/impl/c15_tz.py): the same histories, tie and oracle, but every user is a machine in its own zone —
+the process zone is really switched (TZ + tzset) before each command, separately for the snapshotting and the restoring /
+listing side (UTC, fixed offsets incl. :30 / :45 / +14, northern / southern DST zones, a 30-minute-DST zone; tzdata names and
+POSIX rules) — and the controlled clock produces UTC instants dense (sub-second … 0.8 × the shift apart) around one DST
+transition of a focus zone: the UTC VALUES run through the skipped / repeated wall-clock hour, or the INSTANTS run through the
+transition itself.  The oracle is unchanged: newest = greatest UTC timestamp, whatever the zone.  Proof side: the extractor
+(tools/sections/15_timekey.py) classifies the sort keys of restore / list-snapshots / list-files and the recorded clock by what
+they are as functions of the UTC value; `order_zone_independent` / `recorded_clock_is_utc` consume them.
 """
 import json
 
 from ..impl import access as A
+from ..impl import c15_tz as T
 
 
 def nontrivial(log):
-    """≥ 3 snapshots, a restore under a non-trivial filter, and a restore where some path had ≥ 2 different readable versions"""
+    """≥ 3 snapshots, a restore under a non-trivial filter, and a restore where some path had ≥ 2 different readable versions;
+    a time-zone world moreover needs a restore that saw two versions of a path closer together than the zone's shift, or whose
+    order flips under a zone-dependent reading of the timestamps"""
     ex = log.get('extra', {})
-    return log.get('n_snapshots', 0) >= 3 and ex.get('filtered_restores', 0) > 0 and ex.get('multi_version_restores', 0) > 0
+    ok = log.get('n_snapshots', 0) >= 3 and ex.get('filtered_restores', 0) > 0 and ex.get('multi_version_restores', 0) > 0
+    tz = log['cfg'].get('tz')
+    if tz is not None:
+        st = tz['stats']
+        ok = ok and any(st.get('restores:' + k, 0) for k in ('versions-closer-than-the-shift', 'value-as-local-time-flips-versions', 'local-wall-clock-flips-versions'))
+    return ok
 
 
 def run(out, drv, info):
@@ -29,28 +46,59 @@ def run(out, drv, info):
     out.rule = ('case = repository (encrypted with 1–3 keys in random relations, or unencrypted) × history of snapshots over overlapping file sets '
                 '(paths appear/change/disappear, distinct timestamps incl. whole seconds, notes) / deletes by printed names / cleans, with every user\'s '
                 'list-snapshots / list-files (random regexes, random column subsets and orders) and restore (random regexes) observed after every step; '
-                'non-trivial = ≥ 3 snapshots, ≥ 1 restore under a filter, ≥ 1 restore where a path had ≥ 2 readable versions; distinct = hash of the case summary')
+                'non-trivial = ≥ 3 snapshots, ≥ 1 restore under a filter, ≥ 1 restore where a path had ≥ 2 readable versions; distinct = hash of the case summary.  '
+                'Time-zone cases (counters `tz:*`) = the same × a zone per user and role (restoring / listing machine, snapshotting machine; the process zone is switched '
+                'with TZ + tzset before every command; UTC, fixed offsets, northern / southern / 30-minute DST zones, tzdata names and POSIX rules) × a clock whose UTC '
+                'instants are dense around one DST transition of a focus zone (values through the skipped / repeated wall-clock hour, or instants through the transition); '
+                'such a case is non-trivial only if moreover a restore saw two versions of a path closer together than the shift or in an order that a zone-dependent '
+                'reading of the timestamps flips')
     out.assumptions = ['snapshot timestamps are pairwise different (the property\'s quantifier); with equal timestamps the winner depends on listing order (Lean example)',
                        'a file version stands for its bytes: that restoring a recorded version yields exactly those bytes and that listed sizes are true sizes is C01',
                        'bytes_to_human rounding is presentation: sizes are compared after parsing to (2-decimal value, unit)',
-                       'WF: every stored object is what its name says (C04); CPython re / datetime / json modelled, not verified']
+                       'WF: every stored object is what its name says (C04); CPython re / datetime / json modelled, not verified',
+                       'time zones: the zone is what the C library derives from TZ (tzdata of this machine / POSIX rules); wall-clock time not obtained through '
+                       'replicat.repository.datetime (time.time) is not controlled']
     n_worlds, n_ops = (260, 12) if quick else (1600, 16)
-    changed = sorted(k for k in info.get('extract_notes', {}) if k.startswith(('select.', 'section:06_access')))
+    changed = sorted(k for k in info.get('extract_notes', {}) if k.startswith(('select.', 'section:06_access', 'section:15_timekey')))
     if changed:      # the selection / sorting code is no longer in the recognised shape: not a broken tie, but look harder (DESIGN §3.1)
         n_worlds *= 2
         out.extra['unrecognised_guards'] = changed
     logs = A.run_worlds(out, drv, 'C15', n_worlds, n_ops, 'c15', 'c15')
-    tot = {}
-    for log in logs:
+    # time-zone worlds: same generator / tie / oracle, every user a machine in its own zone, instants dense around a DST transition
+    n_tz, n_tz_ops = (96, 12) if quick else (480, 16)
+    if changed:
+        n_tz *= 2
+    tz_logs = T.run_tz_worlds(out, drv, n_tz, n_tz_ops)
+    tot, tz_tot = {}, {}
+    for log in logs + tz_logs:
+        tz = log['cfg'].get('tz')
         summary = {'enc': log['cfg']['enc'], 'users': log['user_kinds'], 'chunking': log['cfg']['chunking'],
                    'ops': [f'{st["user"][0]}:{st["kind"]}' + ('!' + st['error'] if st.get('error') else '') for st in log['steps']],
                    'filters': [o['regex'] for st in log['steps'][:3] for o in st['obs']][:9]}
+        if tz is not None:
+            summary['tz'] = {'placement': tz['placement'], 'focus': tz['focus'], 'obs_zone': tz['obs_zone'], 'snap_zone': tz['snap_zone'], 'instants': tz['instants']}
         out.case(summary, nontrivial(log))
-        out.count('enc' if log['cfg']['enc'] else 'plain')
-        out.count('users:%d' % log['n_users'])
-        out.count('snapshots:' + ('<3' if log['n_snapshots'] < 3 else '3-5' if log['n_snapshots'] <= 5 else '>5'))
+        pre = 'tz:' if tz is not None else ''
+        out.count(pre + ('enc' if log['cfg']['enc'] else 'plain'))
+        out.count(pre + 'users:%d' % log['n_users'])
+        out.count(pre + 'snapshots:' + ('<3' if log['n_snapshots'] < 3 else '3-5' if log['n_snapshots'] <= 5 else '>5'))
+        if tz is not None:
+            out.count('tz:placement:' + tz['placement'])
+            out.count('tz:focus-zone:' + tz['focus_class'] + (':posix-rule' if ',' in tz['focus'] else ':tzdata-name'))
+            for o, sn in zip(tz['obs_zone'], tz['snap_zone']):
+                out.count('tz:restoring-machine-zone:' + T.ZONE_CLASS.get(o, '?'))
+                out.count('tz:snapshotting-machine-zone:' + T.ZONE_CLASS.get(sn, '?'))
+                out.count('tz:snapshotting-zone-' + ('same-as' if o == sn else 'differs-from') + '-restoring-zone')
+            ins = [T._dt.datetime.fromisoformat(x) for x in tz['instants']]
+            for a, b in zip(ins, ins[1:]):
+                d = (b - a).total_seconds()
+                out.count('tz:gap-between-consecutive-snapshots:' + ('<1s' if d < 1 else '<1min' if d < 60 else '<shift' if d < tz['shift'] else '>=shift'))
+            for k, v in tz['stats'].items():
+                tz_tot[k] = tz_tot.get(k, 0) + v
         for st in log['steps']:
-            out.count('op:' + st['kind'] + ('!' + st['error'] if st.get('error') else ''))
+            out.count(pre + 'op:' + st['kind'] + ('!' + st['error'] if st.get('error') else ''))
+            if tz is not None:
+                continue
             for o in st['obs']:
                 if o['kind'] == 'restore':
                     out.count('restore:' + ('no-filter' if o['regex'] == [None, None] else 'snapshot+file-filter' if None not in o['regex'] else 'one-filter'))
@@ -63,18 +111,24 @@ def run(out, drv, info):
         for k, v in log.get('extra', {}).items():
             tot[k] = tot.get(k, 0) + v
     out.extra['worlds'] = len(logs)
+    out.extra['tz_worlds'] = len(tz_logs)
     out.extra['totals'] = tot
+    out.extra['tz_totals'] = dict(sorted(tz_tot.items()))
+    out.extra['sort_keys'] = {k: v for k, v in info.get('extract_notes', {}).items() if k.startswith('timekey.')}
 
 
 def replay(path, drv):
     d = json.load(open(path))
     rp = d.get('replay', d)
     if rp.get('kind') == 'world' and 'idx' in rp:
-        log = A.run_tasks(A.run_world, [(rp.get('seed', 0), rp['idx'], rp.get('label', 'C15'), rp.get('n_ops', 12), rp.get('mode', 'c15'))], 180)[0]   # a child process: a hanging command must not block the replay
+        func = T.run_tz_world if rp.get('label') == T.LABEL else A.run_world
+        log = A.run_tasks(func, [(rp.get('seed', 0), rp['idx'], rp.get('label', 'C15'), rp.get('n_ops', 12), rp.get('mode', 'c15'))], 180)[0]   # a child process: a hanging command must not block the replay
         if 'steps' not in log:
             print('the world did not finish:', log)
             return 1
         print('cfg', log['cfg'])
+        if log['cfg'].get('tz'):
+            print('time zones' + T.describe(log['cfg']['tz']))
         print('ops', [f'{st["user"]}:{st["kind"]}' + ('!' + st['error'] if st.get('error') else '') for st in log['steps']])
         bad = 0
         for p, sig, what, extra in log['violations']:
